@@ -327,6 +327,14 @@ pub fn gen(seed: u64, thorough: bool, o: &mut Out) -> Vec<String> {
         q.push(format!("mark {}", name));
     }
     q.push("!pinned".into());
+    // 4. sequence numbers around the reserved value: the headers `start_update` writes next to a confirmed image
+    //    whose sequence number is s carry next(s), next(next(s)) and must parse
+    for s in [0u32, 1, 2, 0x7FFF_FFFF, 0x8000_0000, 0xFFFF_FFF0, 0xFFFF_FFFA, 0xFFFF_FFFB, 0xFFFF_FFFC, 0xFFFF_FFFD, 0xFFFF_FFFE] {
+        q.push(format!("alloc {}", s));
+    }
+    for _ in 0..8 {
+        q.push(format!("alloc {}", (rng.next() as u32).min(0xFFFF_FFFE)));
+    }
     q
 }
 
@@ -499,6 +507,34 @@ pub fn exec(line: &str, o: &mut Out) -> String {
                 o.fail("C11", format!("mark {} programs {} (expected exactly {})", t[1], log.join(","), want));
             }
             format!("{} {}", r, log.join(","))
+        }
+        "alloc" => {
+            use flash_algo_new::manager::{ScratchRam, SlotManager};
+            let sq: u32 = t[1].parse().unwrap();
+            let mut m = SlotManager::<4>::new(SLOT);
+            let mut f = Nor::new(BLK, 4 * SLOT);
+            // slot 0: a completed, confirmed firmware (32-byte fragments, 8 of them) with sequence number sq
+            for (k, w) in [0u32, sq, 32, 8, 0x4444_4444, 0x1111_1111, 0xABCD_1234].iter().enumerate() {
+                f.put_word(4 * k, *w);
+            }
+            f.arm();
+            let mut scratch = Box::new(ScratchRam::new());
+            let r = block_on(m.start_update(&mut f, &mut scratch, 32, 8)).is_ok();
+            let mut parts = vec![format!("r={}", r)];
+            for i in 1..4 {
+                let hb: Vec<u8> = f.mem[i * SLOT..i * SLOT + 28].to_vec();
+                let blank = hb.iter().all(|b| *b == 0xFF);
+                if !blank {
+                    let w = f.word(i * SLOT + 4);
+                    parts.push(format!("seq{}={}", i, w));
+                    o.stat(if w < sq { "alloc-seq-wrapped" } else { "alloc-seq-plain" });
+                    // oracle (C11): a header the library encoded parses (the reserved code is never used as a value)
+                    if r && newc::parse_hdr(&hb) == "none" {
+                        o.fail("C11", format!("start_update next to a confirmed image with sequence number {:#x} wrote header {} into slot {}, which does not parse", sq, hex(&hb), i));
+                    }
+                }
+            }
+            parts.join(" ")
         }
         _ => "bad-op".into(),
     }
